@@ -311,6 +311,35 @@ example :
       = [[24, 27], [39, 42]] := by
   decide
 
+/-! ## the stacked transmit data (R1 per argument element) -/
+
+/-- What `corrupt_data(x[, xe])` hands to `corrupt_concatenated_data` is the stack of ALL blocks, each
+    kept whole: cut at the blocks' own row counts, the l-th piece of the stack is exactly the l-th
+    block (of the user data followed by the interference data on the ExtInt class) — every entry of
+    every block, whatever the other blocks contain.  (On the code: whatever their element types.) -/
+theorem stacked_data_keeps_every_block (F : Fns α) (st : State α) (x xe : List (Mat α)) {l : Nat}
+    {b : Mat α} (hb : (if st.isExt then x ++ xe else x)[l]? = some b) :
+    ∃ X, (step Cfg.fixed F st (.stackData x xe)) = (st, .mat X)
+      ∧ seg ((if st.isExt then x ++ xe else x).map List.length) X l = b :=
+  ⟨_, rfl, seg_flatten_blocks _ hb⟩
+
+/-- The two entry points agree: after every history, `corrupt_data(x[, xe])` returns the split by the
+    receive antenna counts of what `corrupt_concatenated_data` returns for the stacked data (same noise
+    drawn), and leaves the same `last_noise`. -/
+theorem corrupt_is_split_of_corruptCat (F : Fns α) (isExt : Bool) (ops : List (Op α))
+    (x xe : List (Mat α)) (noise : Option (Mat α)) :
+    let st := reach F isExt ops
+    (st.noiseVar.isSome → noise.isSome) →
+    ∃ X Y ln, (step Cfg.fixed F st (.stackData x xe)).2 = .mat X
+      ∧ (step Cfg.fixed F st (.corruptCat X noise)).2 = .rx [Y] ln
+      ∧ (step Cfg.fixed F st (.corrupt x xe noise)).2
+          = .rx ((List.range st.userK).map fun k => seg st.nr Y k) ln := by
+  intro st hn
+  have h := reach_coherent F isExt ops
+  refine ⟨_, _, _, rfl, (doCorruptCat_spec F st _ noise h hn).1, ?_⟩
+  rw [(out_corrupt F st x xe noise h hn).1]
+  rfl
+
 /-! ## the matrix operations of the model are the mathematical ones -/
 
 /-- `matMul` (the model of `np.dot`, used for `big_H · data`) is the matrix
